@@ -52,11 +52,25 @@ structure MethodVal where
   recv : OpKind
   op : CmpOp
 
-def raise {α} (p : Panic) (j : J) : VM α := .error ⟨p, j.calls⟩
+/-- the class of a Go `error` value, as `Process` lets a caller tell them apart -/
+def clsErr : GErr → EvalErr
+  | .op _ => .invalidOperation
+  | .strconv => .badLiteral
+  | .nested _ _ _ => .badLiteral
+  | .new _ => .unknownOp
+
+/-- the class of a diagnostic -/
+def clsDbg : GErr → Dbg
+  | .nested (some (.op .invalidOperation)) _ _ => .invalidOperation
+  | .nested (some (.op .missing)) _ _ => .missing
+  | .nested (some (.op .invalidOperand)) _ _ => .invalidOperand
+  | _ => .other
+
+def raise {α} (p : Panic) (j : J) : VM α := .error ⟨p, j.calls, j.debugErr.map clsDbg⟩
 /-- a helper's panic surfaces in a visitor method -/
 def lift {α} (j : J) : PM α → VM α
   | .ok a => .ok a
-  | .error p => .error ⟨p, j.calls⟩
+  | .error p => .error ⟨p, j.calls, j.debugErr.map clsDbg⟩
 
 /-! ### slices, strings -/
 def len {α} (l : List α) : Int := l.length
@@ -127,7 +141,7 @@ def callOp (lower : Bytes → Bytes) (f : Option MethodVal) (l : Value) (r : ROp
   | none => raise .nilOp j          -- call of a nil func value
   | some m =>
   match Rules.apply lower m.recv m.op l r with
-  | .panic c => .error ⟨.stringer, j.calls ++ c⟩
+  | .panic c => .error ⟨.stringer, j.calls ++ c, j.debugErr.map clsDbg⟩
   | .ok b c => .ok (b, none, { j with calls := j.calls ++ c })
   | .err e c => .ok (false, some (.op e), { j with calls := j.calls ++ c })
 
